@@ -71,13 +71,14 @@ def run(F, res, tier):
             continue
         sites.append((f, t))
     allowed = set(ALLOWED_SETTERS)
-    # private helpers that only the allowed functions call are part of them (`Change::apply_roots`)
-    for _ in range(3):
-        for f, t in sites:
-            if f.path not in allowed and f.path.startswith("ide::base::Change::"):
-                callers = {g.path for g, b2, t2 in F.callers_of(lambda c, w=f.path: c == w)}
-                if callers and callers <= allowed:
-                    allowed.add(f.path)
+    # the cancellation (a synthetic write) may be written out in apply_change instead of going through request_cancellation
+    sites = [(f, t) for f, t in sites if not (f.path == "ide::ide::AnalysisHost::apply_change" and (callee(t) or callee_def(t) or "").endswith("synthetic_write"))]
+    # private helpers that only the allowed functions call are part of them (`Change::apply_roots` -> `Change::apply_root`)
+    for _ in range(4):
+        for w in sorted(p_ for p_ in F.fns if p_.startswith("ide::base::Change::") and "{closure" not in p_ and p_ not in allowed):
+            callers = {re.sub(r"(::\{closure#\d+\})+$", "", g.path) for g, b2, t2 in F.callers_of(lambda c, w=w: c == w)}
+            if callers and callers <= allowed:
+                allowed.add(w)
     bad = [(f.path, t["ln"], callee_def(t)) for f, t in sites if f.path not in allowed]
     res.ob("H1", "input-setters", "salsa input setters / synthetic_write are called only from Change::apply, RootDatabase::default and request_cancellation",
            not bad, where="crates/ide/src/base.rs", how="%d setter call sites, all in the allowed functions" % len(sites) if not bad else str(bad))
